@@ -144,3 +144,36 @@ package atree
 //@        (forall k :: 0 <= k && k < i ==> e.hkeys[k] < hkey) && (forall k :: j <= k && k < len(e.hkeys) ==> e.hkeys[k] > hkey) &&
 //@        (j < len(e.hkeys) ==> lessThanIndex == j) && e.hkeys[len(e.hkeys) - 1] >= hkey && e.hkeys[0] <= hkey
 //@   loop 2: invariant 0 <= i && i <= len(e.elems) && size == 8 + 8 * i + sum(esz, e.elems, i)
+
+//@ func (e *hkeyElements) Remove(storage, digester, level, hkey, comparator, key) (k, v, err)  serves C02 C06 C18
+//@   requires wfHk(e) && storage != nil && digester != nil && comparator != nil
+//@   assume (forall i :: 0 <= i && i < len(e.elems) ==> inSub(e, e.elems[i]) && !inSub(e.elems[i], e) &&
+//@        !(is(e.elems[i], *inlineCollisionGroup) && as(e.elems[i], *inlineCollisionGroup).elements == e))
+//@        because "frame assumption F: elements belong to the subtree of the list that holds them, and not vice versa (a list is not nested inside its own elements)"
+//@   ensures[C18] (forall i :: 0 <= i && i < len(old(e.hkeys)) ==> old(e.hkeys)[i] != hkey) && !isFatal(err) ==> err != nil && isUser(err) && isKeyNotFound(err) && sameHk(e) && sto == old(sto)
+//@   ensures[C18] err != nil ==> sameHk(e)
+//@   ensures[C02] err == nil ==> (exists p :: 0 <= p && p < len(old(e.hkeys)) && old(e.hkeys)[p] == hkey &&
+//@        ((len(e.hkeys) == len(old(e.hkeys)) && e.hkeys == old(e.hkeys) && (forall i :: 0 <= i && i < len(e.elems) && i != p ==> e.elems[i] == old(e.elems)[i])) ||
+//@         (len(e.hkeys) == len(old(e.hkeys)) - 1 &&
+//@           (forall i :: 0 <= i && i < p ==> e.hkeys[i] == old(e.hkeys)[i] && e.elems[i] == old(e.elems)[i]) &&
+//@           (forall i :: p <= i && i < len(e.hkeys) ==> e.hkeys[i] == old(e.hkeys)[i + 1] && e.elems[i] == old(e.elems)[i + 1]))))
+//@   ensures[C06] err == nil ==> hkShape(e) && e.level == old(e.level)
+//@   ensures[C02] err == nil ==> hkSorted(e)
+//@   modifies hkeyElements.*@inSub(e), singleElement.*@inSub(e), inlineCollisionGroup.*@inSub(e), externalCollisionGroup.*@inSub(e), singleElements.*@inSub(e),
+//@        ghost.sto, ghost.stored, ghost.touched, alloc
+//@   loop 1: invariant 0 <= i && i <= j && j <= len(e.hkeys) && equalIndex == -1 &&
+//@        (forall k :: 0 <= k && k < i ==> e.hkeys[k] < hkey) && (forall k :: j <= k && k < len(e.hkeys) ==> e.hkeys[k] > hkey)
+
+//@ func (e *hkeyElements) Merge(elems) (err)  serves C02 C06
+//@   requires wfHk(e) && elems != nil && (is(elems, *hkeyElements) ==> as(elems, *hkeyElements) != e && wfHk(as(elems, *hkeyElements)) &&
+//@        (len(e.hkeys) > 0 && len(as(elems, *hkeyElements).hkeys) > 0 ==> e.hkeys[len(e.hkeys) - 1] < as(elems, *hkeyElements).hkeys[0]) &&
+//@        e.size + as(elems, *hkeyElements).size <= 4294967295)
+//@   ensures is(elems, *hkeyElements) ==> err == nil
+//@   ensures[C02] err == nil ==> len(e.hkeys) == len(old(e.hkeys)) + len(old(as(elems, *hkeyElements).hkeys)) &&
+//@        (forall k :: 0 <= k && k < len(old(e.hkeys)) ==> e.hkeys[k] == old(e.hkeys)[k] && e.elems[k] == old(e.elems)[k]) &&
+//@        (forall k :: 0 <= k && k < len(old(as(elems, *hkeyElements).hkeys)) ==> e.hkeys[len(old(e.hkeys)) + k] == old(as(elems, *hkeyElements).hkeys)[k] &&
+//@            e.elems[len(old(e.hkeys)) + k] == old(as(elems, *hkeyElements).elems)[k])
+//@   ensures[C06] err == nil ==> hkShape(e) && e.size == old(e.size) + old(as(elems, *hkeyElements).size) - 8
+//@   ensures[C02] err == nil ==> hkSorted(e)
+//@   ensures[C06] err == nil ==> hkSized(e)
+//@   modifies e.hkeys, e.elems, e.size, ghost.touched, alloc
